@@ -1,5 +1,7 @@
 import logging
 import os
+import re
+import shlex
 import typing
 from collections import defaultdict
 from functools import lru_cache
@@ -94,6 +96,9 @@ def req_iter_from_file(
     )
 
 
+_COMMENT_RE = re.compile(r"(^|\s+)#.*$")
+
+
 def req_iter_from_lines(
     lines: Iterable[str],
     parameters: typing.List[str],
@@ -124,6 +129,13 @@ def req_iter_from_lines(
         continuation = False
 
         line_parts = full_line.split()
+        if line_parts[0].startswith("-"):
+            # Option lines follow pip's grammar: a trailing comment is dropped, quotes
+            # are removed and `--requirement=FILE` means `--requirement FILE`.
+            line_parts = shlex.split(_COMMENT_RE.sub("", full_line))
+            flag, has_value, value = line_parts[0].partition("=")
+            if has_value and flag in ("-r", "--requirement"):
+                line_parts[:1] = [flag, value]
         if line_parts[0] in ("-r", "--requirement"):
             for req in req_iter_from_file(
                 os.path.join(relative_dir or ".", line_parts[1].strip()),
